@@ -93,6 +93,7 @@ inductive Err
   | sharedGrowth -- guard: the operation would grow a block whose rc > 1 (known finding)
   | cyclic       -- guard: the operation would make a container contain itself
   | nopath       -- the source path does not exist
+  | srcMoved     -- guard: evaluating the target path would move the element the source reference designates (known finding)
 deriving DecidableEq, Repr, Inhabited
 
 structure State where
@@ -306,6 +307,10 @@ def mkInt (i : Int) : V := .int i
 def mkUnsigned (u : Nat) : V := if u < 2147483648 then .int u else .num (Dy.ofInt u)
 /-- `Var(Long)`, `Var(ULong)`: always NUMBER (`(double)y`, exact for |y| < 2^53) -/
 def mkLong (x : Int) : V := .num (Dy.ofInt x)
+/-- `Var(long)` / `operator=(long)` on LP64 (commit 6c0507b): INT inside the int range, NUMBER outside -/
+def mkNativeLong (x : Int) : V := if -2147483648 ≤ x ∧ x < 2147483648 then .int x else .num (Dy.ofInt x)
+/-- `Var(unsigned long)` / `operator=(unsigned long)` -/
+def mkNativeULong (u : Nat) : V := if u < 2147483648 then .int u else .num (Dy.ofInt u)
 /-- `Var(double)` -/
 def mkDouble (d : Dy) : V := .num d
 /-- `Var(float)` -/
@@ -444,14 +449,41 @@ def stepMut (guard : Bool) (σ : State) (l : Loc) (s : Step) : Except Err (State
     | .obj id => indexKey guard σ l id k
     | _ => throw .badarg                     -- Var[String] on an array or a scalar: outside the modelled domain
 
+/-- Would this application of the non-const `operator[]` to the Var at `l` move the element that the reference `src`
+designates?  In C++ the source operand of `p = q`, `p << q`, `p.extend(q)` is a `const Var&` evaluated BEFORE the
+target path; an auto-creating step of the target path that reallocates the block holding that element, or — in an
+object — inserts a new property at or before it, leaves the reference dangling or pointing at another element. -/
+def invalidates (σ : State) (l : Loc) (s : Step) (src : Option Loc) : Bool :=
+  match src with
+  | some (.item B j) =>
+    match readLoc σ l with
+    | .ok (.arr id) =>
+      id == B && (match s, getB σ.heap id with
+        | .idx i, .ok b => decide (i ≥ b.items.length ∧ i + 1 > b.cap)
+        | _, _ => false)
+    | .ok (.obj id) =>
+      id == B && (match getB σ.heap id with
+        | .ok b =>
+          let k := match s with
+            | .idx i => natDigits i
+            | .key k => k
+          match Map.indexOf Map.cmpBytes b.items k with
+          | some r => decide (r < 0 ∧ (b.items.length ≥ b.cap ∨ (-r - 1).toNat ≤ j))
+          | none => false
+        | .error _ => false)
+    | _ => false
+  | _ => false
+
 /-- the path `root[s1][s2]…` evaluated left to right; the state keeps the effects of the steps already taken
-when a later step is refused -/
-def resolveMut (guard : Bool) : State → Loc → List Step → State × Except Err Loc
+when a later step is refused.  `src`: the Var the source reference of the statement designates (if any). -/
+def resolveMut (guard : Bool) (src : Option Loc) : State → Loc → List Step → State × Except Err Loc
   | σ, l, [] => (σ, .ok l)
   | σ, l, s :: rest =>
-    match stepMut guard σ l s with
-    | .error e => (σ, .error e)
-    | .ok (σ1, l1) => resolveMut guard σ1 l1 rest
+    if guard && invalidates σ l s src then (σ, .error .srcMoved)
+    else
+      match stepMut guard σ l s with
+      | .error e => (σ, .error e)
+      | .ok (σ1, l1) => resolveMut guard src σ1 l1 rest
 
 /-! ## `operator[] const` -/
 
@@ -900,6 +932,8 @@ inductive Lit
   | flt (d : Dy)         -- float
   | bool (b : Bool)
   | str (s : Bytes)      -- const String& / const char*
+  | nlong (i : Int)      -- long (64-bit on LP64)
+  | nulong (u : Nat)     -- unsigned long
 deriving DecidableEq, Repr, Inhabited
 
 /-- `Var(x)` for a typed literal -/
@@ -911,6 +945,8 @@ def Lit.toV : Lit → V
   | .flt d => mkFloat d
   | .bool b => mkBool b
   | .str s => mkString s
+  | .nlong i => mkNativeLong i
+  | .nulong u => mkNativeULong u
 
 structure Path where
   root : Nat
@@ -973,9 +1009,19 @@ def cycleGuard (h : Heap) (parent : Option Nat) (src : V) : Except Err Unit :=
   | .ok true => .error .cyclic
   | .ok false => .ok ()
 
-/-- `p = q;` -/
-def opSetV (σ : State) (t : Loc) (q : Path) : Except Err State :=
-  match cget σ q with
+/-- the value read through the source reference once the target path has been evaluated (`none`: the static
+`Var::none`).  The failure branch is never taken after the `invalidates` guard. -/
+def srcVal (σ : State) (sl : Option Loc) : Except Err V :=
+  match sl with
+  | none => .ok V.none
+  | some l =>
+    match readLoc σ l with
+    | .ok v => .ok v
+    | .error _ => .error .srcMoved
+
+/-- `p = q;` with the source reference `sl` -/
+def opSetV (σ : State) (t : Loc) (sl : Option Loc) : Except Err State :=
+  match srcVal σ sl with
   | .error e => .error e
   | .ok src =>
     match cycleGuard σ.heap (parentOf t) src with
@@ -983,7 +1029,7 @@ def opSetV (σ : State) (t : Loc) (q : Path) : Except Err State :=
     | .ok _ => assignV σ t src
 
 /-- guard of `p << q;` where the Var at `t` holds `v` -/
-def appGuard (σ : State) (t : Loc) (q : Path) (src v : V) : Except Err Unit :=
+def appGuard (σ : State) (t : Loc) (sl : Option Loc) (src v : V) : Except Err Unit :=
   match v with
   | .arr id =>
     match reaches (travFuel σ.heap) σ.heap id src with
@@ -996,20 +1042,18 @@ def appGuard (σ : State) (t : Loc) (q : Path) (src v : V) : Except Err Unit :=
     | .error e => .error e
     | .ok _ =>
       -- `v << v` on an undefined v: the argument is a reference to the Var that has just become the array
-      match cloc σ q with
-      | .error e => .error e
-      | .ok sl => if sl = some t then .error .cyclic else .ok ()
+      if sl = some t then .error .cyclic else .ok ()
   | _ => .ok ()
 
 /-- `p << q;` -/
-def opApp (guard : Bool) (σ : State) (t : Loc) (q : Path) : Except Err State :=
-  match cget σ q with
+def opApp (guard : Bool) (σ : State) (t : Loc) (sl : Option Loc) : Except Err State :=
+  match srcVal σ sl with
   | .error e => .error e
   | .ok src =>
     match readLoc σ t with
     | .error e => .error e
     | .ok v =>
-      match appGuard σ t q src v with
+      match appGuard σ t sl src v with
       | .error e => .error e
       | .ok _ => appendAt guard σ t src
 
@@ -1044,8 +1088,8 @@ def extGuard (guard : Bool) (σ : State) (t : Loc) (src v : V) : Except Err Unit
   | _, _ => .ok ()
 
 /-- `p.extend(q);` -/
-def opExtend (guard : Bool) (σ : State) (t : Loc) (q : Path) : Except Err State :=
-  match cget σ q with
+def opExtend (guard : Bool) (σ : State) (t : Loc) (sl : Option Loc) : Except Err State :=
+  match srcVal σ sl with
   | .error e => .error e
   | .ok src =>
     match readLoc σ t with
@@ -1057,18 +1101,18 @@ def opExtend (guard : Bool) (σ : State) (t : Loc) (q : Path) : Except Err State
 
 /-- the statement body once the target `t` is resolved; the guards (`cyclic`, `sharedGrowth`) are decided exactly as
 harness/c04.cpp decides them from the public API before it issues the call -/
-def opBody (guard : Bool) (σ : State) (t : Loc) : Op → Except Err State
+def opBody (guard : Bool) (σ : State) (t : Loc) (sl : Option Loc) : Op → Except Err State
   | .setLit _ (.str s) => assignString σ t s
   | .setLit _ l => assignScalar σ t l.toV
   | .setType _ ty => assignType σ t ty
-  | .setV _ q => opSetV σ t q
-  | .app _ q => opApp guard σ t q
+  | .setV _ _ => opSetV σ t sl
+  | .app _ _ => opApp guard σ t sl
   | .appLit _ l => appendAt guard σ t l.toV
   | .resize _ n => resizeV guard σ t n
   | .removeAt _ i n => if i < 0 ∨ n ≤ 0 then .ok σ else removeAtV σ t i.toNat n.toNat
   | .removeKey _ k => removeKeyV σ t k
   | .clear _ => clearV σ t
-  | .extend _ q => opExtend guard σ t q
+  | .extend _ _ => opExtend guard σ t sl
   | _ => .error .badarg
 
 /-- root k = `new Var(q.clone())`, then the old root is destroyed -/
@@ -1130,18 +1174,35 @@ def targetOf : Op → Option Path
   | .extend p _ => some p
   | _ => none
 
-/-- one statement of a history.  The state is returned also when the statement is refused: the steps of the
-target path evaluated before the refusal have taken effect (in the C++ as well). -/
+/-- the source operand of a statement (a `const Var&`) -/
+def srcOf : Op → Option Path
+  | .setV _ q => some q
+  | .app _ q => some q
+  | .extend _ q => some q
+  | _ => none
+
+/-- the Var the source reference designates, evaluated BEFORE the target path (as the C++ does) -/
+def srcLoc (σ : State) (op : Op) : Except Err (Option Loc) :=
+  match srcOf op with
+  | none => .ok none
+  | some q => cloc σ q
+
+/-- one statement of a history: source reference, then target path, then the call.  The state is returned also
+when the statement is refused: the steps of the target path evaluated before the refusal have taken effect (in the
+C++ as well). -/
 def applyOp (guard : Bool) (σ : State) (op : Op) : State × Except Err Unit :=
   match targetOf op with
   | some p =>
     if p.root < σ.slots.length then
-      match resolveMut guard σ (.slot p.root) p.steps with
-      | (σ1, .error e) => (σ1, .error e)
-      | (σ1, .ok t) =>
-        match opBody guard σ1 t op with
-        | .ok σ2 => (σ2, .ok ())
-        | .error e => (σ1, .error e)
+      match srcLoc σ op with
+      | .error e => (σ, .error e)
+      | .ok sl =>
+        match resolveMut guard sl σ (.slot p.root) p.steps with
+        | (σ1, .error e) => (σ1, .error e)
+        | (σ1, .ok t) =>
+          match opBody guard σ1 t sl op with
+          | .ok σ2 => (σ2, .ok ())
+          | .error e => (σ1, .error e)
     else (σ, .error .badarg)
   | none =>
     match rootOp σ op with
